@@ -128,7 +128,7 @@ pub fn op_strategy() -> BoxedStrategy<Op> {
 }
 
 fn case_strategy(role: Role) -> BoxedStrategy<Case> {
-    (1u16..5, prop::sample::select(vec![LimitHow::Config, LimitHow::Handshake, LimitHow::PeerLower, LimitHow::PeerHigher]), prop::collection::vec(op_strategy(), 3..26))
+    (1u16..5, prop::sample::select(vec![LimitHow::Config, LimitHow::Handshake, LimitHow::PeerLower, LimitHow::PeerHigher, LimitHow::HandshakeAbovePeer, LimitHow::HandshakeBelowPeer]), prop::collection::vec(op_strategy(), 3..26))
         .prop_map(move |(limit, how, ops)| Case { role, limit, how, ops })
         .boxed()
 }
